@@ -94,7 +94,10 @@ inline IFile ovmb_decode(const std::string &img) {
         if (c.file_length > img.size() - r.p) { f.invalid("chunk-length-exceeds-file"); return f; }
         if (c.padding > c.file_length) { f.invalid("padding-exceeds-length"); return f; }
         c.payload_off = r.p; c.payload_len = (size_t)(c.file_length - c.padding);
-        for (size_t i = 0; i < c.padding; ++i) if (img[c.payload_off + c.payload_len + i] != 0) { f.invalid("padding-not-zero"); return f; }
+        for (size_t i = 0; i < c.padding; ++i) {
+            if (i == 0 || i + 1 == c.padding) fld(c.payload_off + c.payload_len + i, 1, "chunk_padding_content");
+            if (img[c.payload_off + c.payload_len + i] != 0) { f.invalid("padding-not-zero"); return f; }
+        }
         f.chunks.push_back(c);
         size_t end = c.payload_off + c.payload_len;
         bool known = c.type == "VERT" || c.type == "TOPO" || c.type == "DIRP" || c.type == "PROP" || c.type == "EOF ";
